@@ -223,7 +223,31 @@ func Errorf(format string, a ...any) error {
 
 // Sprintf models fmt.Sprintf: the result is a fresh opaque text.
 func Sprintf(format string, a ...any) string {
-	return AtomString(Name("sprintf"))
+	s := AtomString(Name("sprintf"))
+	if hasLiteralText(format) {
+		// whatever the operands render as, the literal text of the format is part of the result: code may rely on a
+		// message built this way being non-empty (behaviour-preserving change B12: `if msg != ""`)
+		Assume(len(s) > 0)
+	}
+	return s
+}
+
+// hasLiteralText: the format contains at least one character outside its verbs (formats are literals in the code under
+// test and in the libraries executed).
+func hasLiteralText(format string) bool {
+	for i := 0; i < len(format); i++ {
+		if format[i] != '%' {
+			return true
+		}
+		i++
+		if i < len(format) && format[i] == '%' {
+			return true
+		}
+		for i < len(format) && (format[i] == '+' || format[i] == '-' || format[i] == '#' || format[i] == ' ' || format[i] == '0' || (format[i] >= '1' && format[i] <= '9') || format[i] == '.' || format[i] == '*' || format[i] == '[' || format[i] == ']') {
+			i++
+		}
+	}
+	return false
 }
 
 func Sprint(a ...any) string {
